@@ -3,6 +3,8 @@ Line-protocol driver for the codec group: varint (C14), CRC-16/ARC (C16),
 endian codecs (C15).
 -/
 import Ufw.Model.Varint
+import Ufw.Model.Crc
+import Ufw.Spec.Crc
 import Driver.Loop
 
 open Ufw
@@ -49,6 +51,59 @@ def decStr (t : Ty) (d : Dec) (okSuffix : Nat → String) (errSuffix : String) :
   | .err e => s!"err:{e.name}{errSuffix}"
   | .oob => "oob"
 
+/-! CRC: left view = model (table from the source), right view = bitwise spec -/
+
+def hex16 (v : BitVec 16) : String := hexNat v.toNat 4
+
+def wordsOfImage : List Octet → List (BitVec 16)
+  | a :: b :: rest => (BitVec.zeroExtend 16 a ||| (BitVec.zeroExtend 16 b <<< 8)) :: wordsOfImage rest
+  | _ => []
+
+def sweep (f : BitVec 16 → BitVec 8 → BitVec 16) (lo hi : Nat) : Nat := Id.run do
+  let mut acc : Nat := 0
+  for s in [lo:hi] do
+    for d in [0:256] do
+      let r := (f (BitVec.ofNat 16 s) (BitVec.ofNat 8 d)).toNat
+      acc := (acc * 31 + r + 1) % 18446744073709551557
+  return acc
+
+def crcLine (toks : List String) : String :=
+  match toks with
+  | ["crc.buf", init, hex] =>
+    match parseHexNat init, parseHex hex with
+    | some i, some buf =>
+      let i := BitVec.ofNat 16 i
+      s!"{hex16 (Ufw.Model.Crc.ufw_crc16_arc i buf)} ## {hex16 (Ufw.Spec.Crc.crc i buf)}"
+    | _, _ => "bad-op"
+  | ["crc.split", init, hex, k] =>
+    match parseHexNat init, parseHex hex, k.toNat? with
+    | some i, some buf, some k =>
+      let i := BitVec.ofNat 16 i
+      let whole := Ufw.Model.Crc.ufw_crc16_arc i buf
+      let split := Ufw.Model.Crc.ufw_crc16_arc (Ufw.Model.Crc.ufw_crc16_arc i (buf.take k)) (buf.drop k)
+      let sp := Ufw.Spec.Crc.crc i buf
+      s!"whole={hex16 whole} split={hex16 split} ## whole={hex16 sp} split={hex16 sp}"
+    | _, _, _ => "bad-op"
+  | ["crc.u16", init, hex] =>
+    match parseHexNat init, parseHex hex with
+    | some i, some img =>
+      let i := BitVec.ofNat 16 i
+      s!"{hex16 (Ufw.Model.Crc.ufw_crc16_arc_u16 false i (wordsOfImage img))} ## {hex16 (Ufw.Spec.Crc.crc i (img.take (img.length / 2 * 2)))}"
+    | _, _ => "bad-op"
+  | ["crc.initial", hex] =>
+    match parseHex hex with
+    | some buf => s!"{hex16 (Ufw.Model.Crc.ufw_buffer_crc16_arc buf)} ## {hex16 (Ufw.Spec.Crc.crc 0#16 buf)}"
+    | none => "bad-op"
+  | ["crc.table"] =>
+    let m := (List.range 256).map fun i => hex16 (Ufw.Gen.CrcTable.crc16_octet 0#16 (BitVec.ofNat 8 i))
+    let sp := (List.range 256).map fun i => hex16 (Ufw.Spec.Crc.step8 0#16 (BitVec.ofNat 8 i))
+    s!"{String.join m} ## {String.join sp}"
+  | ["crc.sweep", lo, hi] =>
+    match lo.toNat?, hi.toNat? with
+    | some lo, some hi => s!"{sweep Ufw.Gen.CrcTable.crc16_octet lo hi} ## {sweep Ufw.Spec.Crc.step8 lo hi}"
+    | _, _ => "bad-op"
+  | _ => "bad-op"
+
 def stepLine (_ : Unit) (toks : List String) : Unit × String :=
   ((), match toks with
   | ["vi.len", ty, v] =>
@@ -76,6 +131,7 @@ def stepLine (_ : Unit) (toks : List String) : Unit × String :=
     match Ty.ofString ty, v.toInt? with
     | some t, some x => let e := encode (t.pattern x); s!"ok:{e.length} out={hexOf e}"
     | _, _ => "bad-op"
+  | t :: rest => if t.startsWith "crc." then crcLine (t :: rest) else "bad-op"
   | _ => "bad-op")
 
 end Driver.Codec
